@@ -20,7 +20,7 @@ fn describe(ctx: &mut Ctx) {
         Prop::C01 => (format!("{obs_gen}Plus every history of <= 4 (quick) / 5 (thorough) calls from a 14-call alphabet (enumerated). Non-trivial = the history contains a conditional setter that did not store, a poll that became ready after >= 2 intervening updates, and a get/next_now followed by a poll of the same subscriber. Also (since seeding round 9): the async-lock guard engine (guards held across other calls; its value and readiness rules are tagged C01; non-trivial there = a task queued behind a write guard completed after the release) and the free-running thread programs of engine C (60 executions each; rules tagged C01: a subscriber created by subscribe() after the last write completed is not ready, a value written once is yielded at most once per subscriber; non-trivial there = operations of different threads overlap)."), vec!["std's DefaultHasher::new() is keyed with constants (the harness computes the same hash)"]),
         Prop::C02 => (format!("{obs_gen}{thr}Oracle: after every notifying update / closing drop the latest Pending waker of every pending subscriber has fired (single thread), and no poll returns Ready after a Pending poll whose waker was not woken since (all engines). Non-trivial (single thread) = >= 2 subscribers pending at the moment of an update or close; (threads) = a poll that returned Ready after a Pending poll of the same subscriber. Also the async-lock guard engine (rules tagged C02: with no guard alive and the executor stalled no pending poll may have an update or the end available; after the owners are dropped with subscriber-side permits outstanding every pending poll is woken)."), vec!["between pause points the OS schedules; a thread not reaching a pause point within 15 ms is presumed blocked (affects only which schedule is explored)"]),
         Prop::C03 => (format!("{obs_gen}{thr}Oracle: poll == None iff the model's owner count is 0, upgrade succeeds iff an owner exists; threads: stream ended <=> no owner survived the join, and it ends once the rest is dropped. Non-trivial (single thread) = >= 2 handles dropped with a poll and a close or successful upgrade; (threads) = >= 2 drop/upgrade operations in the program. Also async-flavour handle histories and the async-lock guard engine with its two finales (owners dropped after every guard was released; owners dropped while subscribers hold read guards or granted-but-unpolled lock requests)."), vec!["as C02"]),
-        Prop::C04 => (format!("{thr}Recorded invocation/response tickets from one atomic counter; Wing-Gong search against a sequential register (set returns previous, set_if_not_eq, update adds, reads return latest), ending on the final value; guard sections: value stable inside a read guard, no operation both invoked and completed inside another thread's guard interval; a subscriber that is Pending after the join saw the final value last. Plus single-threaded histories in which try_read/try_write must refuse while the harness holds guards. Non-trivial = operations of different threads overlap in ticket time (threads) / a try_lock was refused (single thread)."), vec!["verdicts come only from recorded histories; timing changes coverage, not soundness"]),
+        Prop::C04 => (format!("{thr}Recorded invocation/response tickets from one atomic counter; Wing-Gong search against a sequential register (set returns previous, set_if_not_eq, update adds, reads return latest), ending on the final value; guard sections: value stable inside a read guard, no operation both invoked and completed inside another thread's guard interval; a subscriber that is Pending after the join saw the final value last. Plus single-threaded histories in which try_read/try_write must refuse while the harness holds guards, and single-threaded histories judged by the sequential special case of this property on SharedObservable (setter return values, read values, a subscriber stuck behind the final value; tagged C04 only while the observable is a SharedObservable). Non-trivial = operations of different threads overlap in ticket time (threads) / a try_lock was refused (single thread)."), vec!["verdicts come only from recorded histories; timing changes coverage, not soundness"]),
         Prop::C05 => (format!("{vec_gen}Raw subscribers (no adapter), eager or lag-bounded polling. Non-trivial = a mid-history subscription, a committed transaction of >= 2 diffs, and a poll with >= 2 updates pending."), vec!["message boundaries are observed through a harness-internal batched probe subscriber (85-100 % of the cases)"]),
         Prop::C06 => (format!("{vec_gen}Raw subscribers, unconstrained lag, capacities 1..64. Non-trivial = at least one Reset delivered and another subscriber of the same case that never lagged."), vec!["tokio's broadcast channel may hold more than `capacity` messages (rounding up): only Reset => lag is asserted, never the converse"]),
         Prop::C07 => (format!("{vec_gen}Transaction-heavy histories (bodies of 0-6 operations). Non-trivial = a transaction abandoned after >= 2 effective operations, or committed after a rollback, or a clear() after recorded diffs."), vec![]),
@@ -545,6 +545,11 @@ fn c04(ctx: &mut Ctx) {
     let cfg = ObsGen { guards_pct: 100, w_guard: 12, w_handle: 2, ..ObsGen::default() };
     let n = ctx.pick(100_000, 2_000_000);
     ctx.random("guard-exclusion-single-thread", "obs", &|| engine_obs::case(&cfg), &run, n);
+    // sequential histories are degenerate concurrent ones: on a SharedObservable every set returns
+    // its predecessor's value, every read the latest write, every subscriber ends on the final value
+    let cfg = ObsGen { w_write: 16, w_handle: 3, ..ObsGen::default() };
+    let n = ctx.pick(100_000, 2_000_000);
+    ctx.random("sequential-histories-single-thread", "obs", &|| engine_obs::case(&cfg), &run, n);
 }
 
 /// Run `n` generated cases of the property's first vector phase and of the observable generator
